@@ -102,10 +102,13 @@ impl InterfaceVariant for Iv {
 }
 
 #[derive(Debug)]
-pub enum SpiErr {}
+pub enum SpiErr {
+    /// an injected bus fault: the transfer was cut after some octets had been clocked (`with_spi_cut`)
+    Cut,
+}
 impl embedded_hal::spi::Error for SpiErr {
     fn kind(&self) -> embedded_hal::spi::ErrorKind {
-        match *self {}
+        embedded_hal::spi::ErrorKind::Other
     }
 }
 
@@ -196,6 +199,29 @@ pub fn with_xfer_budget<T>(budget: u32, f: impl FnOnce() -> T) -> T {
     f()
 }
 
+thread_local! {
+    /// injected bus fault: (exchanges still to pass untouched, octets of the failing exchange that reach the chip)
+    static SPI_CUT: Cell<Option<(u32, usize)>> = const { Cell::new(None) };
+    /// exchanges counted while a cut is armed (to size the enumeration)
+    static SPI_SEEN: Cell<u32> = const { Cell::new(0) };
+}
+/// Runs `f` with one interrupted SPI exchange: exchange number `after` (0-based, counted from now) is cut after
+/// `octets` octets have been clocked — those reach the chip model (a FIFO pointer advances, a command byte alone
+/// does nothing) — and the transaction returns an error. Returns f's result and the number of exchanges seen.
+pub fn with_spi_cut<T>(after: u32, octets: usize, f: impl FnOnce() -> T) -> (T, u32) {
+    struct Disarm;
+    impl Drop for Disarm {
+        fn drop(&mut self) {
+            SPI_CUT.with(|b| b.set(None));
+        }
+    }
+    SPI_CUT.with(|b| b.set(Some((after, octets))));
+    SPI_SEEN.with(|b| b.set(0));
+    let _d = Disarm;
+    let r = f();
+    (r, SPI_SEEN.with(|b| b.get()))
+}
+
 impl<C: ChipModel> SpiDevice<u8> for Spi<C> {
     async fn transaction(&mut self, operations: &mut [Operation<'_, u8>]) -> Result<(), SpiErr> {
         XFER_BUDGET.with(|b| {
@@ -234,6 +260,16 @@ impl<C: ChipModel> SpiDevice<u8> for Spi<C> {
                 }
                 Operation::DelayNs(_) => {}
             }
+        }
+        SPI_SEEN.with(|b| b.set(b.get().wrapping_add(1)));
+        if let Some((after, octets)) = SPI_CUT.with(|b| b.get()) {
+            if after == 0 {
+                SPI_CUT.with(|b| b.set(None));
+                let k = octets.min(n);
+                self.chip.borrow_mut().exchange(&mosi[..k], &mut miso[..k]);
+                return Err(SpiErr::Cut);
+            }
+            SPI_CUT.with(|b| b.set(Some((after - 1, octets))));
         }
         self.chip.borrow_mut().exchange(&mosi[..n], &mut miso[..n]);
         let mut p = 0usize;
